@@ -355,6 +355,52 @@ def c07_design(rng):
     return d
 
 
+def twin_design(rng):
+    """two lanes, each a small structural block holding ONE library arithmetic block of the same class and the same port widths but
+    (where the class has them) different constructor OPTIONS -- logical vs arithmetic ShiftRight, Abs with / without the inverted flag,
+    Add with / without carry ports: the generator may share one module between instances only when they are interchangeable"""
+    import py4hw, c07
+    global _C07_FAM
+    if _C07_FAM is None:
+        _C07_FAM = [(b, p) for b, p, _ in c07.param_families('quick', Rng(12345))]
+    opt = {'ShiftRight': [3], 'Abs': [2], 'Add': [3, 4], 'SignedAdd': [3, 4]}
+    fam = [(b, p) for b, p in _C07_FAM if b in opt] if rng.chance(3, 4) else _C07_FAM
+    blk, p = rng.choice(fam)
+    p2 = list(p)
+    if blk in opt:
+        k = rng.choice(opt[blk])
+        if blk == 'ShiftRight':
+            if p2[3] in (0, 1):
+                p2[3] = 1 - p2[3]
+        else:
+            p2[k] = 0 if p2[k] else 1
+    variants = [tuple(p), tuple(p2)]
+    if rng.chance(1, 2):
+        variants.reverse()
+    hw = py4hw.HWSystem()
+    Top = top_class()
+    top = Top(hw, 'top')
+    inputs, outputs = {}, {}
+    for ln, pv in enumerate(variants):
+        inw, outw, ctor = c07.block_def(blk, pv)
+        lane = Top(top, f'lane{ln}')
+        iw = [hw.wire(f'l{ln}_i{k}', w) for k, w in enumerate(inw)]
+        ow = [hw.wire(f'l{ln}_o{k}', w) for k, w in enumerate(outw)]
+        for w_ in iw:
+            top.addIn(w_.name, w_)
+            lane.addIn(w_.name, w_)
+            inputs[w_.name] = w_
+        for w_ in ow:
+            top.addOut(w_.name, w_)
+            lane.addOut(w_.name, w_)
+            outputs[w_.name] = w_
+        ctor(lane, iw, ow)
+    d = dict(hw=hw, top=top, inputs=inputs, outputs=outputs, kind=f'twin:{blk}')
+    d['desc'] = dict(block=blk, variants=[list(v) for v in variants])
+    d['nondet_div'] = False
+    return d
+
+
 def wide_design(rng):
     """one wide arithmetic block (48..96-bit operands) inside a Top: the places where a host-language shortcut (floats, fixed-size masks)
     stops being exact"""
